@@ -17,6 +17,16 @@ def rand_schema(rng, depth=0):
         if rng.random() < 0.2: s["exclusiveMinimum"] = rng.randint(-5, 0)
         if rng.random() < 0.15: s["exclusiveMaximum"] = rng.randint(15, 30)
         if rng.random() < 0.2: s["multipleOf"] = rng.choice([2, 3, 5])
+        if rng.random() < 0.15:         # both bounds of one side, equal or one apart
+            side = rng.choice(["imum", "imum", "both"])
+            b = rng.randint(-3, 12)
+            if side != "both" and rng.random() < 0.5:
+                s["minimum"], s["exclusiveMinimum"] = b, b + rng.choice([0, 0, -1, 1])
+                s.pop("maximum", None); s.pop("exclusiveMaximum", None)
+            else:
+                s["maximum"], s["exclusiveMaximum"] = b + 8, b + 8 + rng.choice([0, 0, -1, 1])
+                if side == "both":
+                    s["minimum"], s["exclusiveMinimum"] = b, b + rng.choice([0, 0, -1, 1])
         return s
     if k == "number":
         s = {"type": "number"}
@@ -69,6 +79,61 @@ def rand_schema(rng, depth=0):
     return s
 
 
+def inst_for(rng, s, depth=0):
+    """an instance aimed at the schema: mostly of the right shape, numbers / lengths / counts at and next to the stated bounds"""
+    if not isinstance(s, dict) or depth > 4:
+        return rand_inst(rng, 3)
+    for k in ("anyOf", "oneOf", "allOf"):
+        if k in s and s[k]:
+            return inst_for(rng, rng.choice(s[k]), depth + 1)
+    if "const" in s and rng.random() < 0.7:
+        return s["const"]
+    if "enum" in s and rng.random() < 0.7:
+        return rng.choice(s["enum"])
+    t = s.get("type")
+    nums = [s[k] for k in ("minimum", "maximum", "exclusiveMinimum", "exclusiveMaximum") if isinstance(s.get(k), (int, float)) and not isinstance(s.get(k), bool)]
+    if t in ("integer", "number") or (t is None and nums):
+        if nums and rng.random() < 0.85:
+            b = rng.choice(nums)
+            v = b + rng.choice([0, 0, 1, -1])
+            if "multipleOf" in s and rng.random() < 0.5 and isinstance(v, int):
+                v -= v % s["multipleOf"]
+            return v
+        return rng.choice([0, 1, 6, -3, 10, 2.5 if t == "number" else 7])
+    if t == "string" or (t is None and any(k in s for k in ("minLength", "maxLength", "pattern"))):
+        ln = rng.choice([s.get("minLength", 1), s.get("maxLength", 3), s.get("minLength", 1) - 1, s.get("maxLength", 3) + 1])
+        ch = "7" if "d" in s.get("pattern", "") else "a"
+        if "format" in s and rng.random() < 0.7:
+            return {"date": "2020-01-02", "date-time": "2020-01-02T03:04:05", "uuid": "12345678-1234-5678-1234-567812345678",
+                    "time": "03:04:05", "duration": "P1DT2H"}.get(s["format"], "x")
+        return ch * max(0, ln)
+    if t == "boolean":
+        return rng.choice([True, False])
+    if t == "null":
+        return None
+    if t == "array" or (t is None and any(k in s for k in ("items", "prefixItems", "minItems", "maxItems"))):
+        pre = s.get("prefixItems", [])
+        n = rng.choice([s.get("minItems", 1), s.get("maxItems", 2), len(pre), len(pre) + 1, s.get("maxItems", 2) + 1, max(0, s.get("minItems", 1) - 1)])
+        out = []
+        for i in range(n):
+            sub = pre[i] if i < len(pre) else s.get("items", {})
+            out.append(inst_for(rng, sub, depth + 1) if isinstance(sub, dict) else rand_inst(rng, 3))
+        if s.get("uniqueItems") and out and rng.random() < 0.3:
+            out.append(out[0])
+        return out
+    if t == "object" or (t is None and any(k in s for k in ("properties", "required", "minProperties", "maxProperties"))):
+        props = s.get("properties", {})
+        out = {}
+        for k, sub in props.items():
+            if k in s.get("required", []) and rng.random() < 0.9 or rng.random() < 0.6:
+                out[k] = inst_for(rng, sub, depth + 1)
+        if rng.random() < 0.3:
+            ap = s.get("additionalProperties")
+            out["zz"] = inst_for(rng, ap, depth + 1) if isinstance(ap, dict) else rand_inst(rng, 3)
+        return out
+    return rand_inst(rng, 2)
+
+
 def rand_inst(rng, depth=0):
     r = rng.random()
     if r < 0.2: return rng.choice([0, 1, 5, -3, 10, 15, 100])
@@ -111,6 +176,17 @@ def _msg(c, *needles):
 findings.MATCHERS["schema-has-oneOf"] = lambda c: has_kw(c["schema"], "oneOf") and _msg(c, "is valid under each of", "is not valid under any of the given schemas")
 findings.MATCHERS["schema-bool-int-enum"] = lambda c: mixes_bool_int(c["schema"]) and isinstance(c.get("value"), bool) and _msg(c, "is not one of", "was expected", "is not valid under any")
 findings.MATCHERS["schema-has-allOf"] = lambda c: has_kw(c["schema"], "allOf") and _msg(c, "is not of type", "is not one of", "was expected", "is not valid under any")
+def allof_objects(s):
+    if isinstance(s, dict):
+        if isinstance(s.get("allOf"), list) and sum(isinstance(x, dict) and (x.get("type") == "object" or "properties" in x) for x in s["allOf"]) >= 1 and len(s["allOf"]) >= 2:
+            return True
+        return any(allof_objects(v) for v in s.values())
+    if isinstance(s, list):
+        return any(allof_objects(v) for v in s)
+    return False
+
+
+findings.MATCHERS["schema-allOf-objects"] = lambda c: allof_objects(c["schema"]) and _msg(c, "is a required property", "enough properties", "is not valid under any")
 findings.MATCHERS["schema-minProperties"] = lambda c: has_kw(c["schema"], "minProperties") and _msg(c, "enough properties", "non-empty", "is not valid under any")
 
 
@@ -129,8 +205,8 @@ def build_and_parse(i_seed):
         return dict(schema=sch, build_error="%s: %s" % (type(e).__name__, str(e)[:200]))
     strict = Options(no_explicit_cast=True, no_data_loss=True)
     insts, crashes = [], []
-    for _ in range(12):
-        v = rand_inst(rng)
+    for i in range(14):
+        v = rand_inst(rng) if i < 6 else inst_for(rng, sch)
         try:
             r = type_transform(v, T, strict)
         except (TypeError, ValueError):
